@@ -436,6 +436,44 @@ def jsonLayerE : List (SVal × SVal) → List (SVal × SVal)
   | (k, v) :: es => (k, jsonLayer v) :: jsonLayerE es
 end
 
+/-! ### TOML entry order
+
+TOML's syntax puts the plain `key = value` lines of a table before its sub-tables, so `toml`'s writer
+emits, per table, first the entries whose value is written inline and then — in their original
+order — the entries that become a `[table]` (a map) or an `[[array of tables]]` (a non-empty
+sequence of maps only); the reader (`preserve_order`) keeps document order. Inline values (also the
+inline tables inside mixed arrays) keep their order. The maps are equal as Koto values (`==` ignores
+entry order); `tomlOrd` states the order exactly so that any *other* reordering is detected. -/
+
+def isTableLike : Val → Bool
+  | .map _ => true
+  | .tuple xs => !xs.isEmpty && xs.all isMap
+  | .list xs => !xs.isEmpty && xs.all isMap
+  | _ => false
+
+mutual
+def tomlOrd : Val → Val
+  | .map es => .map (tomlPlain es ++ tomlTables es)
+  | .tuple xs => if !xs.isEmpty && xs.all isMap then .tuple (tomlOrdL xs) else .tuple xs
+  | .list xs => if !xs.isEmpty && xs.all isMap then .list (tomlOrdL xs) else .list xs
+  | .null => .null
+  | .bool b => .bool b
+  | .num n => .num n
+  | .str s => .str s
+  | .range a b => .range a b
+def tomlOrdL : List Val → List Val
+  | [] => []
+  | x :: xs => tomlOrd x :: tomlOrdL xs
+/-- the entries written inline, in order, untouched -/
+def tomlPlain : List (Val × Val) → List (Val × Val)
+  | [] => []
+  | (k, v) :: es => if isTableLike v then tomlPlain es else (k, v) :: tomlPlain es
+/-- the entries written as tables / arrays of tables, in order, each ordered inside -/
+def tomlTables : List (Val × Val) → List (Val × Val)
+  | [] => []
+  | (k, v) :: es => if isTableLike v then (k, tomlOrd v) :: tomlTables es else tomlTables es
+end
+
 /-! ### Nesting depth and the readers' recursion limits -/
 
 mutual
